@@ -82,24 +82,25 @@ func (t *c16Token) allows(index string) bool {
 func (t *c16Token) global() bool { return t.allows("\x00no-such-index\x00") }
 
 type c16Fix struct {
-	cs      *vkit.Case
-	ctx     *vkit.Ctx
-	dir     string
-	opts    engine.Options
-	eng     *engine.Engine
-	srv     *Server
-	h       http.Handler
-	idx     []*c16Index // A, B, C
-	shared  []string    // ids present in every index (never canaries)
-	rels    []string
-	kvKeys  []string
-	kvCan   string // canary stored in the KV store
-	baseG   int
-	uni     vexec.Universe
-	tokens  []*c16Token
-	nonce   int
-	pipes   bool
-	lastObs *vexec.Obs
+	cs            *vkit.Case
+	ctx           *vkit.Ctx
+	dir           string
+	opts          engine.Options
+	eng           *engine.Engine
+	srv           *Server
+	h             http.Handler
+	idx           []*c16Index // A, B, C
+	shared        []string    // ids present in every index (never canaries)
+	rels          []string
+	kvKeys        []string
+	kvCan         string // canary stored in the KV store
+	baseG         int
+	uni           vexec.Universe
+	tokens        []*c16Token
+	nonce         int
+	pipes         bool
+	namesRejected bool // the requested (hostile) index names were refused; benign ones are in use
+	lastObs       *vexec.Obs
 }
 
 // c16NamePairs: (A, B, C) index-name triples. Every name is a legal index name for the
@@ -132,6 +133,22 @@ func c16Opts(dir string) engine.Options {
 // newC16Fix opens an engine in a deeply nested data directory (hostile names containing
 // ".." must never be able to leave the case's scratch directory) and builds the server.
 func newC16Fix(ctx *vkit.Ctx, cs *vkit.Case, names [3]string) *c16Fix {
+	f := buildC16Fix(ctx, cs, names)
+	if f.namesRejected {
+		// the product refuses one of the hostile index names at creation time (a legitimate
+		// way to close a name-based hole): fall back to the benign triple
+		f.close()
+		ctx.Count("index_names_rejected_at_creation", 1)
+		f = buildC16Fix(ctx, cs, c16NamePairs[0])
+		if f.namesRejected {
+			cs.Fail("fixture: the product refuses to create the benign indexes %v", c16NamePairs[0])
+		}
+		f.namesRejected = true
+	}
+	return f
+}
+
+func buildC16Fix(ctx *vkit.Ctx, cs *vkit.Case, names [3]string) *c16Fix {
 	c16FixSeq++
 	dir := filepath.Join(cs.SubDir(fmt.Sprintf("fx%d", c16FixSeq)), "n2", "n3", "n4", "data")
 	os.MkdirAll(dir, 0o755)
@@ -139,9 +156,20 @@ func newC16Fix(ctx *vkit.Ctx, cs *vkit.Case, names [3]string) *c16Fix {
 	f.shared = []string{"n0", "n1", "n2", "n3"}
 	f.rels = []string{"next", "parent", "related_to"}
 	f.open()
-	for k, n := range names {
+	for _, n := range names {
 		f.idx = append(f.idx, &c16Index{Name: n})
-		_ = k
+	}
+	// create the indexes first: a 4xx here means the name itself is refused
+	for _, ix := range f.idx {
+		b, _ := json.Marshal(map[string]any{"index_name": ix.Name, "metric": "euclidean", "m": 8, "ef_construction": 32})
+		rs := f.do("POST", "/vector/actions/create", c16Root, b)
+		if rs.Code >= 400 && rs.Code < 500 && rs.Code != http.StatusConflict {
+			f.namesRejected = true
+			return f
+		}
+		if rs.Code >= 300 {
+			cs.Fail("fixture request POST /vector/actions/create %s failed: %d %s", b, rs.Code, rs.Body)
+		}
 	}
 	f.populate()
 	return f
@@ -258,7 +286,6 @@ func (f *c16Fix) populate() {
 	for k, ix := range f.idx {
 		tag := string(rune('A' + k))
 		ix.Canaries = nil
-		f.rootJSON("POST", "/vector/actions/create", map[string]any{"index_name": ix.Name, "metric": "euclidean", "m": 8, "ef_construction": 32})
 		cid := make([]string, 2)
 		for j := range cid {
 			cid[j] = mk(tag + "id")
